@@ -55,6 +55,7 @@ func (con *Connection) EncryptedWrite(b []byte) (int, error) {
 	}
 
 	encryptedBytes, err := ioutil.ReadAll(encrypted)
+	verifWriteGate(con, encryptedBytes)
 	n, err := con.connection.Write(encryptedBytes)
 
 	return n, err
